@@ -4,6 +4,18 @@ use soroban_sdk::xdr;
 use soroban_sdk::{Address, Env, IntoVal, InvokeError, TryFromVal, Val, Vec as SVec};
 use std::cell::Cell;
 
+/// Per-invocation budget: ~500x the mainnet CPU limit and 1 GiB of memory. Resource ceilings are
+/// outside every property, but an *unlimited* budget lets a contract that loops for ever (seen with a
+/// seeded change in `bind_tokens`) eat all memory and take the shard, and what it had already
+/// observed, down with it. A call that exhausts this budget is classified `Fail::Budget` and makes
+/// the run inconclusive unless a violation was recorded.
+pub const CPU_LIMIT: u64 = 50_000_000_000;
+pub const MEM_LIMIT: u64 = 1 << 30;
+
+pub fn reset_budget(env: &Env) {
+    env.cost_estimate().budget().reset_limits(CPU_LIMIT, MEM_LIMIT);
+}
+
 pub struct World {
     pub env: Env,
     nonce: Cell<i64>,
@@ -26,7 +38,7 @@ impl World {
             max_entry_ttl: (1 << 30) + 1,
         });
         env.cost_estimate().disable_resource_limits();
-        env.cost_estimate().budget().reset_unlimited();
+        reset_budget(&env);
         World { env, nonce: Cell::new(1) }
     }
     /// World with an explicit max_entry_ttl (bounds `live_until` arguments checked by the library).
@@ -52,7 +64,7 @@ impl World {
         self.env.ledger().set(li);
     }
     pub fn reset_budget(&self) {
-        self.env.cost_estimate().budget().reset_unlimited();
+        reset_budget(&self.env);
     }
     /// A plain account-like address backed by a contract whose `__check_auth` accepts everything;
     /// whether it authorizes a call is decided solely by the entries given to `auth`.
@@ -199,6 +211,7 @@ pub fn outcome<T, C>(r: Result<Result<T, C>, Result<soroban_sdk::Error, InvokeEr
 
 /// Generic invocation by name with classification (for contracts without a typed client).
 pub fn invoke<T: TryFromVal<Env, Val>>(env: &Env, contract: &Address, func: &str, args: SVec<Val>) -> Result<T, Fail> {
+    reset_budget(env);
     let r = env.try_invoke_contract::<T, soroban_sdk::Error>(contract, &soroban_sdk::Symbol::new(env, func), args);
     outcome(r)
 }
